@@ -222,3 +222,31 @@ impl<T> SplitTree<T> {
         }
     }
 }
+
+// FullBucketsIndices: `ctrl` (NonNull<u8>) is kept as the index of the group it points to
+pub struct FullBucketsIndices {
+    pub current_group: BitMaskIter,
+    pub group_first_index: usize,
+    pub ctrl: usize,
+    pub items: usize,
+}
+impl FullBucketsIndices {
+    pub open spec fn wf(&self) -> bool {
+        let w = Group::WIDTH as int;
+        &&& mem_ok()
+        &&& self.ctrl == self.group_first_index
+        &&& self.group_first_index as int % w == 0
+        &&& self.group_first_index < mem_nb() || (self.group_first_index == 0)
+        &&& self.current_group.lanes@.len() == w
+        &&& 0 <= self.current_group.pos@ <= w
+        &&& (forall|k: int| 0 <= k < w ==> #[trigger] self.current_group.lanes@[k] == is_full(self.group_first_index + k))
+        &&& self.items as nat == count_upto(self.rem_fn(), mem_nb() + Group::WIDTH)
+    }
+    /// the bucket indices still to be yielded
+    pub open spec fn rem(&self, j: int) -> bool {
+        self.group_first_index + self.current_group.pos@ <= j < mem_nb() && is_full(j)
+    }
+    pub open spec fn rem_fn(&self) -> spec_fn(int) -> bool {
+        |j: int| self.rem(j)
+    }
+}
